@@ -295,7 +295,7 @@ Lemma walk_print_unfold fuel p arg dirs st :
    match v with
    | VUndef => fail e_undefined
    | _ =>
-       ds <-- print_dirs cf (walk cf fuel) dirs ;;;
+       ds <-- print_dirs cf (walk cf fuel) dirs v ;;;
        s <-- lift (value_string v) ;;;
        st1 <-- get ;;;
        ws <-- lift (print_writes (mode st1) ds s) ;;;
@@ -370,7 +370,7 @@ Proof.
   set (ws := if negb (mode st1 =? 2) then esc_writes [] s else [s]).
   destruct (write_all_nofault ws st1) as (st2&Hw&Ho2&_); try congruence.
   exists st2. rewrite walk_print_unfold. unfold mbind at 1. rewrite Hwalk.
-  assert (Hgo : (ds <-- print_dirs cf (walk cf fuel) [] ;;;
+  assert (Hgo : (ds <-- print_dirs cf (walk cf fuel) [] v ;;;
                  s0 <-- lift (value_string v) ;;;
                  st3 <-- get ;;;
                  ws0 <-- lift (print_writes (mode st3) ds s0) ;;;
